@@ -1,2 +1,293 @@
-(* C06 — stub *)
-From Zap Require Import Base.Wire C06.Model.
+(* C06 proofs. *)
+From Coq Require Import List Bool ZArith Lia Arith.
+From Coq.Strings Require Import Byte.
+Import ListNotations.
+From Zap Require Import Base.Wire C05.Cores C05.CoreProofs C05.Model C05.Proofs C06.Model.
+Open Scope Z_scope.
+
+(* the levels at which a logger must lose control *)
+Definition terminal (lg : logger) (l : level) : Prop :=
+  l = PanicL \/ l = FatalL \/ (l = DPanicL /\ dev lg = true).
+(* the action: the configured hook, except that nil and WriteThenNoop mean the default *)
+Definition expected_action (lg : logger) (l : level) : action :=
+  if l =? FatalL then override AExit (on_fatal lg) else override APanic (on_panic lg).
+
+Lemma after_hook_terminal lg l : terminal lg l -> after_hook lg l = Some (expected_action lg l).
+Proof.
+  unfold terminal, after_hook, expected_action, PanicL, FatalL, DPanicL.
+  intros [->|[->|[-> Hd]]]; cbn; [reflexivity|reflexivity|rewrite Hd; reflexivity].
+Qed.
+Lemma after_hook_not_terminal lg l : ~ terminal lg l -> after_hook lg l = None.
+Proof.
+  unfold terminal, after_hook. intros H.
+  destruct (l =? PanicL) eqn:E1; [apply Z.eqb_eq in E1; tauto|].
+  destruct (l =? FatalL) eqn:E2; [apply Z.eqb_eq in E2; tauto|].
+  destruct (l =? DPanicL) eqn:E3; [|reflexivity]. apply Z.eqb_eq in E3.
+  destruct (dev lg) eqn:D; [tauto|reflexivity].
+Qed.
+Lemma after_hook_must_end lg l : after_hook lg l = must_end lg l.
+Proof.
+  unfold after_hook, must_end. cbn [existsb]. rewrite !orb_false_r.
+  destruct (l =? PanicL); [destruct (on_panic lg); reflexivity|].
+  destruct (l =? FatalL); [destruct (on_fatal lg); reflexivity|].
+  destruct (l =? DPanicL), (dev lg); cbn [andb]; try reflexivity; destruct (on_panic lg); reflexivity.
+Qed.
+
+(* whatever Core.Check answered - nil because the level is disabled, the core is a no-op or the
+   sampler dropped the entry, or any list of cores - the cores are written and then the hook runs *)
+Theorem finish_terminal lg io l e :
+  terminal lg l -> finish lg io l e = (write_events io l (cores_of e), Some (expected_action lg l)).
+Proof. intros H. unfold finish. rewrite (after_hook_terminal lg l H). destruct e; reflexivity. Qed.
+Theorem finish_not_terminal lg io l e :
+  ~ terminal lg l -> finish lg io l e = (write_events io l (cores_of e), None).
+Proof. intros H. unfold finish. rewrite (after_hook_not_terminal lg l H). destruct e; reflexivity. Qed.
+
+(* ---------------- front ends ---------------- *)
+Definition all_below (gs : list guard) : bool := forallb (fun g => match g with GBelowDPanic => true | GAlways => false end) gs.
+Lemma methods_guards_ok :
+  forallb (fun m => forallb (fun l => negb (can_log m l) || all_below (guards_of (fam_of m))) [DPanicL; PanicL; FatalL]) methods = true.
+Proof. vm_compute. reflexivity. Qed.
+
+Lemma terminal_level lg l : terminal lg l -> In l [DPanicL; PanicL; FatalL].
+Proof. unfold terminal. cbn [In]. intros [->|[->|[-> _]]]; auto. Qed.
+
+Lemma reaches_terminal w c m l lg :
+  In m methods -> can_log m l = true -> terminal lg l -> reaches_check w c (fam_of m) l = true.
+Proof.
+  intros Hm Hc Ht. pose proof methods_guards_ok as H. rewrite forallb_forall in H. specialize (H m Hm).
+  rewrite forallb_forall in H. specialize (H l (terminal_level lg l Ht)). rewrite Hc in H. cbn [negb orb] in H.
+  unfold reaches_check. unfold all_below in H. rewrite forallb_forall in H. apply forallb_forall. intros g Hg.
+  specialize (H g Hg). destruct g; [|discriminate H]. cbn [guard_pass].
+  assert ((l <? DPanicL) = false) as ->; [|reflexivity].
+  apply Z.ltb_ge. destruct (terminal_level lg l Ht) as [<-|[<-|[<-|[]]]]; unfold DPanicL, PanicL, FatalL; lia.
+Qed.
+
+Lemma log_call_eq w lg io f l :
+  log_call w lg io f l =
+  if reaches_check w (lcore lg) f l then finish lg io l (logger_check w (lcore lg) l) else ([], None).
+Proof. reflexivity. Qed.
+
+Theorem terminates_thm w lg io m l :
+  In m methods -> can_log m l = true -> terminal lg l ->
+  log_call w lg io (fam_of m) l = (write_events io l (appended w (lcore lg) l), Some (expected_action lg l)).
+Proof.
+  intros Hm Hc Ht. rewrite log_call_eq, (reaches_terminal w (lcore lg) m l lg Hm Hc Ht).
+  rewrite (finish_terminal lg io l _ Ht), logger_check_cores. reflexivity.
+Qed.
+
+(* a call that is not terminal never runs a terminal action; what it writes is the same *)
+Theorem not_terminal_thm w lg io f l :
+  ~ terminal lg l -> log_call w lg io f l = (write_events io l (appended w (lcore lg) l), None).
+Proof.
+  intros Ht. rewrite log_call_eq. destruct (reaches_check w (lcore lg) f l) eqn:R.
+  - rewrite (finish_not_terminal lg io l _ Ht), logger_check_cores. reflexivity.
+  - destruct (accepts w (lcore lg) l) eqn:A.
+    + rewrite (reaches_check_accepted w (lcore lg) f l A) in R. discriminate R.
+    + rewrite (appended_not_accepted w (lcore lg) l A). reflexivity.
+Qed.
+
+Theorem dpanic_iff_dev w lg io m :
+  In m methods -> can_log m DPanicL = true ->
+  (snd (log_call w lg io (fam_of m) DPanicL) <> None <-> dev lg = true).
+Proof.
+  intros Hm Hc. destruct (dev lg) eqn:D.
+  - assert (terminal lg DPanicL) as Ht by (right; right; auto).
+    rewrite (terminates_thm w lg io m DPanicL Hm Hc Ht). cbn [snd]. split; [reflexivity|discriminate].
+  - assert (~ terminal lg DPanicL) as Ht.
+    { unfold terminal, DPanicL, PanicL, FatalL. intros [H|[H|[_ H]]]; [discriminate H|discriminate H|congruence]. }
+    rewrite (not_terminal_thm w lg io _ DPanicL Ht). cbn [snd]. split; [congruence|discriminate].
+Qed.
+
+(* ---------------- what has happened before the terminal action ---------------- *)
+Lemma writes_of_write_events io l ws : writes_of (write_events io l ws) = leaves_of ws.
+Proof.
+  induction ws as [|[i|h] r IH]; [reflexivity| |].
+  - change (write_events io l (WLeaf i :: r)) with ((EWrite i :: (if io i && (ErrorL <? l) then [ESync i] else [])) ++ write_events io l r).
+    unfold writes_of in *. rewrite flat_map_app, IH. destruct (io i && (ErrorL <? l)); reflexivity.
+  - change (write_events io l (WHook h :: r)) with (EHook h :: write_events io l r). exact IH.
+Qed.
+Lemma hooks_of_write_events io l ws : ev_hooks_of (write_events io l ws) = hooks_of ws.
+Proof.
+  induction ws as [|[i|h] r IH]; [reflexivity| |].
+  - change (write_events io l (WLeaf i :: r)) with ((EWrite i :: (if io i && (ErrorL <? l) then [ESync i] else [])) ++ write_events io l r).
+    unfold ev_hooks_of in *. rewrite flat_map_app, IH. destruct (io i && (ErrorL <? l)); reflexivity.
+  - change (write_events io l (WHook h :: r)) with (EHook h :: write_events io l r).
+    change (ev_hooks_of (EHook h :: write_events io l r)) with (h :: ev_hooks_of (write_events io l r)). rewrite IH. reflexivity.
+Qed.
+Lemma sync_ok_write_events l ws : sync_ok (ErrorL <? l) (write_events all_io l ws) = true.
+Proof.
+  induction ws as [|[i|h] r IH]; [reflexivity| |].
+  - change (write_events all_io l (WLeaf i :: r)) with ((EWrite i :: (if all_io i && (ErrorL <? l) then [ESync i] else [])) ++ write_events all_io l r).
+    unfold all_io at 1. cbn [andb]. destruct (ErrorL <? l) eqn:E; cbn [app sync_ok].
+    + rewrite Nat.eqb_refl. exact IH.
+    + exact IH.
+  - exact IH.
+Qed.
+
+(* the abstract buffered sink: with a Sync after every Write nothing stays queued *)
+Lemma flushed_write_events id l ws : forall done,
+  flushed_lines id (write_events all_io l ws) 0 done =
+  (done + (if (ErrorL <? l)%Z then count_writes id (leaves_of ws) else 0))%nat.
+Proof.
+  induction ws as [|[i|h] r IH]; intros done.
+  - cbn. destruct (ErrorL <? l); lia.
+  - change (write_events all_io l (WLeaf i :: r)) with ((EWrite i :: (if all_io i && (ErrorL <? l) then [ESync i] else [])) ++ write_events all_io l r).
+    change (leaves_of (WLeaf i :: r)) with (i :: leaves_of r).
+    unfold all_io at 1. cbn [andb]. unfold count_writes. cbn [filter].
+    rewrite (Nat.eqb_sym id i).
+    destruct (ErrorL <? l) eqn:E; cbn [app flushed_lines]; destruct (Nat.eqb i id) eqn:I; cbn [length].
+    + rewrite IH. unfold count_writes. lia.
+    + rewrite IH. unfold count_writes. lia.
+    + (* below the sync threshold a queued line is never flushed by later writes of the same call *)
+      clear IH. generalize 1%nat. revert done. induction r as [|[j|h] r IHr]; intros done p; [cbn; lia| |].
+      * change (write_events all_io l (WLeaf j :: r)) with ((EWrite j :: (if all_io j && (ErrorL <? l) then [ESync j] else [])) ++ write_events all_io l r).
+        unfold all_io at 1. rewrite E. cbn [andb app flushed_lines]. destruct (Nat.eqb j id); apply IHr.
+      * change (write_events all_io l (WHook h :: r)) with (EHook h :: write_events all_io l r). cbn [flushed_lines]. apply IHr.
+    + rewrite IH. lia.
+  - change (write_events all_io l (WHook h :: r)) with (EHook h :: write_events all_io l r). cbn [flushed_lines].
+    change (leaves_of (WHook h :: r)) with (leaves_of r). apply IH.
+Qed.
+
+Theorem written_first_thm w lg m l :
+  In m methods -> can_log m l = true -> terminal lg l ->
+  let evs := fst (log_call w lg all_io (fam_of m) l) in
+  writes_of evs = delivered w (lcore lg) l /\
+  ev_hooks_of evs = hooks_due w (lcore lg) l /\
+  sync_ok true evs = true /\
+  (forall id, flushed_lines id evs 0 0 = count_writes id (delivered w (lcore lg) l)).
+Proof.
+  intros Hm Hc Ht. rewrite (terminates_thm w lg all_io m l Hm Hc Ht). cbn [fst].
+  assert ((ErrorL <? l) = true) as Hhi.
+  { apply Z.ltb_lt. destruct (terminal_level lg l Ht) as [<-|[<-|[<-|[]]]]; unfold ErrorL, DPanicL, PanicL, FatalL; lia. }
+  split; [rewrite writes_of_write_events; apply appended_leaves|].
+  split; [rewrite hooks_of_write_events; apply appended_hooks|].
+  split; [pose proof (sync_ok_write_events l (appended w (lcore lg) l)) as Hs; rewrite Hhi in Hs; exact Hs|].
+  intros id. rewrite flushed_write_events, Hhi, appended_leaves. reflexivity.
+Qed.
+
+(* ---------------- zapio.Writer: only when its level is enabled ---------------- *)
+Theorem zapio_partial w lg io l :
+  enabled w (lcore lg) l = true -> terminal lg l ->
+  log_call w lg io (fam_of zapio_method) l = (write_events io l (appended w (lcore lg) l), Some (expected_action lg l)).
+Proof.
+  intros He Ht. rewrite log_call_eq.
+  assert (reaches_check w (lcore lg) (fam_of zapio_method) l = true) as ->.
+  { apply reaches_check_accepted. rewrite <- enabled_accepts. exact He. }
+  rewrite (finish_terminal lg io l _ Ht), logger_check_cores. reflexivity.
+Qed.
+Definition zapio_full : Prop :=
+  forall w lg io l, terminal lg l -> snd (log_call w lg io (fam_of zapio_method) l) = Some (expected_action lg l).
+
+(* ---------------- the code before the zapgrpc fix ---------------- *)
+Definition terminates_orig_full : Prop :=
+  forall w lg io m l, In m methods -> can_log m l = true -> terminal lg l ->
+    snd (log_call_orig w lg io (fam_of m) l) = Some (expected_action lg l).
+Definition fatalln : method := {| m_recv := RGrpc; m_kind := KFatal; m_suffix := Sln |}.
+Definition quiet_logger : logger :=        (* a logger whose only core is enabled from InvalidLevel upwards *)
+  {| lcore := Leaf 0 (ELvl InvalidL); dev := false; on_panic := HNil; on_fatal := HNil |}.
+Lemma terminates_orig_refuted : ~ terminates_orig_full.
+Proof.
+  intros H. specialize (H w0 quiet_logger all_io fatalln FatalL).
+  assert (In fatalln methods) as Hin by (vm_compute; tauto).
+  specialize (H Hin eq_refl (or_intror (or_introl eq_refl))). vm_compute in H. discriminate H.
+Qed.
+
+Lemma zapio_full_refuted : ~ zapio_full.
+Proof. intros H. specialize (H w0 quiet_logger all_io FatalL (or_intror (or_introl eq_refl))). vm_compute in H. discriminate H. Qed.
+
+(* ---------------- wire ---------------- *)
+Lemma dec_enc_ev e : dec_ev (enc_ev e) = e.
+Proof. destruct e; unfold dec_ev, enc_ev, sx_nth; cbn [sx_l nth sx_z]; rewrite sx_n_of_nat; reflexivity. Qed.
+Lemma dec_enc_evs l : map dec_ev (map enc_ev l) = l.
+Proof. induction l as [|x r IH]; [reflexivity|]. cbn [map]. rewrite dec_enc_ev, IH. reflexivity. Qed.
+
+Fixpoint sx_size (s : sx) : nat := match s with SL l => S (fold_right (fun x n => (sx_size x + n)%nat) 0%nat l) | _ => 1%nat end.
+Lemma bytes_eqb_refl b : bytes_eqb b b = true.
+Proof. apply bytes_eqb_eq. reflexivity. Qed.
+Lemma sx_eqb_refl s : sx_eqb s s = true.
+Proof.
+  induction s as [z|b|l IH] using sx_ind'; cbn [sx_eqb]; [apply Z.eqb_refl|apply bytes_eqb_refl|].
+  induction IH as [|x r Hx _ IHr]; [reflexivity|]. rewrite Hx, IHr. reflexivity.
+Qed.
+
+(* a well-formed case only asks a method to log at a level it can log at *)
+Definition wf_call (cl : call) : bool :=
+  existsb (fun m => sx_eqb (enc_method m) (enc_method (c_method cl))) methods && can_log (c_method cl) (c_level cl).
+Definition wf (i : sx) : bool := is_table i || forallb wf_call (map dec_call (sx_l (sx_nth i 6))).
+
+Lemma enc_method_inj m1 m2 : sx_eqb (enc_method m1) (enc_method m2) = true -> m1 = m2.
+Proof.
+  destruct m1 as [r1 k1 s1], m2 as [r2 k2 s2]. unfold enc_method. cbn [m_recv m_kind m_suffix sx_eqb].
+  rewrite !andb_true_iff, !Z.eqb_eq. intros [Hr [Hk [Hs _]]].
+  f_equal; [destruct r1, r2; cbn in Hr; congruence|destruct k1, k2; cbn in Hk; congruence|destruct s1, s2; cbn in Hs; congruence].
+Qed.
+Lemma wf_call_In cl : wf_call cl = true -> In (c_method cl) methods /\ can_log (c_method cl) (c_level cl) = true.
+Proof.
+  unfold wf_call. rewrite andb_true_iff, existsb_exists. intros [[m [Hin He]] Hc].
+  apply enc_method_inj in He. subst m. auto.
+Qed.
+
+Definition terminal_b (lg : logger) (l : level) : bool :=
+  (l =? PanicL) || (l =? FatalL) || ((l =? DPanicL) && dev lg).
+Lemma terminal_b_spec lg l : terminal_b lg l = true <-> terminal lg l.
+Proof.
+  unfold terminal_b, terminal. rewrite !orb_true_iff, andb_true_iff, !Z.eqb_eq. tauto.
+Qed.
+
+Lemma log_call_wf w lg cl :
+  wf_call cl = true ->
+  log_call w lg all_io (fam_of (c_method cl)) (c_level cl) =
+  (write_events all_io (c_level cl) (appended w (lcore lg) (c_level cl)), must_end lg (c_level cl)).
+Proof.
+  intros Hwf. destruct (wf_call_In cl Hwf) as [Hin Hc]. rewrite <- after_hook_must_end.
+  destruct (terminal_b lg (c_level cl)) eqn:T.
+  - apply terminal_b_spec in T. rewrite (terminates_thm w lg all_io _ _ Hin Hc T), (after_hook_terminal lg _ T). reflexivity.
+  - assert (~ terminal lg (c_level cl)) as Hn by (rewrite <- terminal_b_spec, T; discriminate).
+    rewrite (not_terminal_thm w lg all_io _ _ Hn), (after_hook_not_terminal lg _ Hn). reflexivity.
+Qed.
+
+Lemma spec_model_call w lg cl : wf_call cl = true -> spec_call w lg cl (model_call w lg cl) = true.
+Proof.
+  intros Hwf. unfold spec_call, model_call. rewrite (log_call_wf w lg cl Hwf).
+  unfold sx_nth. cbn [sx_l nth]. rewrite dec_enc_evs.
+  rewrite writes_of_write_events, hooks_of_write_events, appended_leaves, appended_hooks, !nat_list_eqb_refl.
+  rewrite sync_ok_write_events, sx_eqb_refl. reflexivity.
+Qed.
+
+Lemma spec_model_calls w lg cls : forallb wf_call cls = true -> spec_calls w lg cls (map (model_call w lg) cls) = true.
+Proof.
+  induction cls as [|cl r IH]; [reflexivity|]. cbn [forallb map spec_calls]. rewrite andb_true_iff. intros [H1 H2].
+  rewrite (spec_model_call w lg cl H1), (IH H2). reflexivity.
+Qed.
+
+Lemma dec_logger_ext w i : dec_logger increase_ok w i = dec_logger spec_increase_ok w i.
+Proof. unfold dec_logger. rewrite (build_with_ext increase_ok spec_increase_ok w spec_increase_ok_eq). reflexivity. Qed.
+
+Theorem spec_model i : wf i = true -> spec i (model i) = true.
+Proof.
+  unfold wf, spec, model. destruct (is_table i); [intros _; apply sx_eqb_refl|]. cbn [orb]. intros Hwf.
+  rewrite <- dec_logger_ext.
+  set (w := world_of (sx_nth i 1)). set (lg := dec_logger increase_ok w i).
+  set (calls := map dec_call (sx_l (sx_nth i 6))) in *.
+  unfold sx_nth at 1. cbn [sx_l nth]. rewrite (spec_model_calls w lg calls Hwf). cbn [andb].
+  destruct calls as [|cl [|cl' r]]; try reflexivity.
+  destruct (sx_bool (sx_nth i 5)); [|reflexivity].
+  unfold sx_nth at 1. cbn [sx_l nth]. rewrite map_sx_n_of_nat.
+  cbn [forallb] in Hwf. rewrite andb_true_r in Hwf. rewrite (log_call_wf w lg cl Hwf). cbn [fst].
+  assert (Heq : forall ids, map (fun id => flushed_lines id (write_events all_io (c_level cl) (appended w (lcore lg) (c_level cl))) 0 0) ids =
+                            map (fun id => if ErrorL <? c_level cl then count_writes id (delivered w (lcore lg) (c_level cl)) else 0%nat) ids).
+  { intros ids. apply map_ext. intros id. rewrite flushed_write_events, appended_leaves. reflexivity. }
+  rewrite Heq. apply nat_list_eqb_refl.
+Qed.
+
+(* nil and no-op hooks are overridden by the defaults; any other hook is the action *)
+Lemma expected_action_defaults lg :
+  ((on_fatal lg = HNil \/ on_fatal lg = HNoop) -> expected_action lg FatalL = AExit) /\
+  ((on_panic lg = HNil \/ on_panic lg = HNoop) -> expected_action lg PanicL = APanic /\ expected_action lg DPanicL = APanic) /\
+  (forall k, on_fatal lg = HCustom k -> expected_action lg FatalL = ACustom k) /\
+  (forall k, on_panic lg = HCustom k -> expected_action lg PanicL = ACustom k /\ expected_action lg DPanicL = ACustom k).
+Proof.
+  unfold expected_action. cbn.
+  split; [intros [->| ->]; reflexivity|]. split; [intros [->| ->]; split; reflexivity|].
+  split; [intros k ->; reflexivity|intros k ->; split; reflexivity].
+Qed.
